@@ -5,6 +5,7 @@
 //          arrival order, separator + the other side's log on every combine) — non-commutative, so order and exactly-once
 //          matter; a moved-from LogS is poisoned (log = {-99}) so any use after move shows up; values may be offered as
 //          rvalues of a move-only type.
+//   IntF : update_tuple_sketch<int64_t> with the DEFAULT policies (Summary() then +=; union +=), tuple_intersection<int64_t, sum>
 //   ArrF : update_array_of_doubles_sketch, array_of_doubles_union, array_of_doubles_intersection<sum>, array_of_doubles_a_not_b
 // Protocol: see coq/TupleDefs.v (step).
 #include "common.hpp"
@@ -78,6 +79,39 @@ struct LogF {
   }
 };
 
+
+// ---------------------------------------------------------------- arithmetic flavour (default policies)
+struct IntSum { void operator()(int64_t& a, const int64_t& b) const { a += b; } };
+struct IntF {
+  typedef int64_t Summary;
+  typedef update_tuple_sketch<int64_t> USk;
+  typedef compact_tuple_sketch<int64_t> CBase;
+  typedef CBase CSk;
+  typedef tuple_union<int64_t> Union;
+  typedef tuple_intersection<int64_t, IntSum> Inter;
+  typedef tuple_a_not_b<int64_t> AnotB;
+  static bool pol_ok(I pol) { return pol == -1; }
+  static size_t nvals(I) { return 1; }
+  static USk::builder ubuilder(I) { return USk::builder(); }
+  static Union::builder unbuilder(I) { return Union::builder(); }
+  static Inter* inter(uint64_t seed, I) { return new Inter(seed, IntSum()); }
+  static CSk wrap(CBase&& b, I) { return CSk(std::move(b)); }
+  static I pol_of(const USk&) { return -1; }
+  static I pol_of(const CSk&) { return -1; }
+  static Summary summary_from(const Line& v, I) { return (int64_t)v.at(0); }
+  static void emit(const Summary& s, Out& o) { o.R(1); o.R((I)s); }
+  static int64_t sum(const Summary& s) { return s; }
+  static size_t len(const Summary&) { return 1; }
+  template<class K> static void upd(USk& s, K key, const Line& vals, bool mv) {
+    if (mv) s.update(key, (int64_t)vals.at(0));
+    else { const int64_t v = (int64_t)vals.at(0); s.update(key, v); }
+  }
+  static void upd_raw(USk& s, const void* p, size_t n, const Line& vals, bool mv) {
+    if (mv) s.update(p, n, (int64_t)vals.at(0));
+    else { const int64_t v = (int64_t)vals.at(0); s.update(p, n, v); }
+  }
+};
+
 // ---------------------------------------------------------------- array-of-doubles flavour
 typedef array<double> Arr;
 struct ArrSum {
@@ -127,6 +161,7 @@ struct ArrF {
 struct Reg {
   std::shared_ptr<update_theta_sketch> th;
   std::shared_ptr<LogF::USk> lu; std::shared_ptr<LogF::CSk> lc; std::shared_ptr<LogF::Union> lun; std::shared_ptr<LogF::Inter> lin;
+  std::shared_ptr<IntF::USk> iu; std::shared_ptr<IntF::CSk> ic; std::shared_ptr<IntF::Union> iun; std::shared_ptr<IntF::Inter> iin;
   std::shared_ptr<ArrF::USk> au; std::shared_ptr<ArrF::CSk> ac; std::shared_ptr<ArrF::Union> aun; std::shared_ptr<ArrF::Inter> ain;
   I pol = 0;     // of unions / intersections
 };
@@ -143,6 +178,12 @@ template<> struct Acc<LogF> {
   static std::shared_ptr<LogF::Union>& un(Reg& g) { return g.lun; }
   static std::shared_ptr<LogF::Inter>& in(Reg& g) { return g.lin; }
 };
+template<> struct Acc<IntF> {
+  static std::shared_ptr<IntF::USk>& u(Reg& g) { return g.iu; }
+  static std::shared_ptr<IntF::CSk>& c(Reg& g) { return g.ic; }
+  static std::shared_ptr<IntF::Union>& un(Reg& g) { return g.iun; }
+  static std::shared_ptr<IntF::Inter>& in(Reg& g) { return g.iin; }
+};
 template<> struct Acc<ArrF> {
   static std::shared_ptr<ArrF::USk>& u(Reg& g) { return g.au; }
   static std::shared_ptr<ArrF::CSk>& c(Reg& g) { return g.ac; }
@@ -151,6 +192,7 @@ template<> struct Acc<ArrF> {
 };
 static bool is_log(const Reg& g) { return g.lu || g.lc || g.lun || g.lin; }
 static bool is_arr(const Reg& g) { return g.au || g.ac || g.aun || g.ain; }
+static bool is_int(const Reg& g) { return g.iu || g.ic || g.iun || g.iin; }
 
 template<class Sk> static void head(const Sk& s, Out& o) {
   o.R((I)s.get_theta64()); o.R(s.is_empty() ? 1 : 0); o.R(s.is_ordered() ? 1 : 0); o.R((I)s.get_num_retained());
@@ -276,11 +318,12 @@ static void handler(const Line& t, Out& o) {
   int code = (int)t.at(0);
   switch (code) {
   case 1: { I pol = t.at(2);
-    if (pol == 0) new_update<LogF>(t, o); else if (ArrF::pol_ok(pol)) new_update<ArrF>(t, o); else throw std::invalid_argument("bad policy");
+    if (pol == 0) new_update<LogF>(t, o); else if (pol == -1) new_update<IntF>(t, o); else if (ArrF::pol_ok(pol)) new_update<ArrF>(t, o); else throw std::invalid_argument("bad policy");
     break; }
   case 2: case 3: case 4: case 5: case 6: case 7: case 11: {
     Reg& g = get(t.at(1));
     if (g.lu || g.lc) sketch_op<LogF>(code, g, t, o);
+    else if (g.iu || g.ic) sketch_op<IntF>(code, g, t, o);
     else if (g.au || g.ac) sketch_op<ArrF>(code, g, t, o);
     else throw std::invalid_argument("not a tuple sketch");
     break; }
@@ -310,6 +353,11 @@ static void handler(const Line& t, Out& o) {
       LogS s = LogF::summary_from(v, pol);
       if (cord == 0) store_c<LogF>(t.at(2), LogF::CBase(*g.th, s, ord), pol, o);
       else store_c<LogF>(t.at(2), LogF::CBase(g.th->compact(cord == 2), s, ord), pol, o);
+    } else if (pol == -1) {
+      if (v.size() != 1) throw std::invalid_argument("wrong number of values");
+      int64_t s = IntF::summary_from(v, pol);
+      if (cord == 0) store_c<IntF>(t.at(2), IntF::CBase(*g.th, s, ord), pol, o);
+      else store_c<IntF>(t.at(2), IntF::CBase(g.th->compact(cord == 2), s, ord), pol, o);
     } else if (ArrF::pol_ok(pol)) {
       if (v.size() != (size_t)pol) throw std::invalid_argument("wrong number of values");
       Arr s = ArrF::summary_from(v, pol);
@@ -318,37 +366,41 @@ static void handler(const Line& t, Out& o) {
     } else throw std::invalid_argument("bad policy");
     break; }
   case 12: { I pol = t.at(2);
-    if (pol == 0) new_union<LogF>(t, o); else if (ArrF::pol_ok(pol)) new_union<ArrF>(t, o); else throw std::invalid_argument("bad policy");
+    if (pol == 0) new_union<LogF>(t, o); else if (pol == -1) new_union<IntF>(t, o); else if (ArrF::pol_ok(pol)) new_union<ArrF>(t, o); else throw std::invalid_argument("bad policy");
     break; }
   case 13: { Reg& g = get(t.at(1)); bool mv = t.at(3) != 0;
-    if (g.lun) feed<LogF>(*g.lun, g.pol, t.at(2), mv); else if (g.aun) feed<ArrF>(*g.aun, g.pol, t.at(2), mv);
+    if (g.lun) feed<LogF>(*g.lun, g.pol, t.at(2), mv); else if (g.iun) feed<IntF>(*g.iun, g.pol, t.at(2), mv); else if (g.aun) feed<ArrF>(*g.aun, g.pol, t.at(2), mv);
     else throw std::invalid_argument("not a union");
     o.R(1); break; }
   case 14: { Reg& g = get(t.at(1)); bool ord = t.at(3) != 0;
     if (g.lun) store_c<LogF>(t.at(2), g.lun->get_result(ord), g.pol, o);
+    else if (g.iun) store_c<IntF>(t.at(2), g.iun->get_result(ord), g.pol, o);
     else if (g.aun) { I pol = g.pol; store_c<ArrF>(t.at(2), ArrF::CBase(g.aun->get_result(ord)), pol, o); }
     else throw std::invalid_argument("not a union");
     break; }
   case 15: { Reg& g = get(t.at(1));
-    if (g.lun) g.lun->reset(); else if (g.aun) g.aun->reset(); else throw std::invalid_argument("not a union");
+    if (g.lun) g.lun->reset(); else if (g.iun) g.iun->reset(); else if (g.aun) g.aun->reset(); else throw std::invalid_argument("not a union");
     o.R(1); break; }
   case 16: { I pol = t.at(2); Reg g; g.pol = pol;
     if (pol == 0) g.lin.reset(LogF::inter((uint64_t)t.at(3), pol));
+    else if (pol == -1) g.iin.reset(IntF::inter((uint64_t)t.at(3), pol));
     else if (ArrF::pol_ok(pol)) g.ain.reset(ArrF::inter((uint64_t)t.at(3), pol));
     else throw std::invalid_argument("bad policy");
     regs[(long)t.at(1)] = std::move(g); o.R(1); break; }
   case 17: { Reg& g = get(t.at(1)); bool mv = t.at(3) != 0; bool has;
     if (g.lin) { std::shared_ptr<LogF::Inter> p = g.lin; feed<LogF>(*p, g.pol, t.at(2), mv); has = p->has_result(); }
+    else if (g.iin) { std::shared_ptr<IntF::Inter> p = g.iin; feed<IntF>(*p, g.pol, t.at(2), mv); has = p->has_result(); }
     else if (g.ain) { std::shared_ptr<ArrF::Inter> p = g.ain; feed<ArrF>(*p, g.pol, t.at(2), mv); has = p->has_result(); }
     else throw std::invalid_argument("not an intersection");
     o.R(1); o.R(has ? 1 : 0); break; }
   case 18: { Reg& g = get(t.at(1)); bool ord = t.at(3) != 0;
     if (g.lin) store_c<LogF>(t.at(2), g.lin->get_result(ord), g.pol, o);
+    else if (g.iin) store_c<IntF>(t.at(2), g.iin->get_result(ord), g.pol, o);
     else if (g.ain) { I pol = g.pol; store_c<ArrF>(t.at(2), ArrF::CBase(g.ain->get_result(ord)), pol, o); }
     else throw std::invalid_argument("not an intersection");
     break; }
   case 19: { Reg& ga = get(t.at(1));
-    if (is_log(ga)) anotb<LogF>(t, o); else if (is_arr(ga)) anotb<ArrF>(t, o); else throw std::invalid_argument("not a sketch");
+    if (is_log(ga)) anotb<LogF>(t, o); else if (is_int(ga)) anotb<IntF>(t, o); else if (is_arr(ga)) anotb<ArrF>(t, o); else throw std::invalid_argument("not a sketch");
     break; }
   default: o.R(-2);
   }
